@@ -244,7 +244,7 @@ func genC11(seed, index uint64, start uint32, buf []Step) (History, bool) {
 	}
 	n := 8 + r.Intn(33)
 	deep := index%c11DeepEvery == 9 // deep class: one Churn step of thousands of checked operations
-	long := index%64 == 5 // long-run class: bursts of thousands of increments without a setter or a read
+	long := index%64 == 5           // long-run class: bursts of thousands of increments without a setter or a read
 	steps := buf[:0]
 	nontrivial := false
 	add := func(s Step) {
